@@ -314,3 +314,18 @@ def iteration_table(body, loop, counters):
         calls = [(e[1], e[2]) for e in pe.events if e[0] == 'call']
         rows.append({'variants': pe.variants, 'atoms': pe.atoms, 'delta': delta, 'calls': calls, 'path': p, 'env': dict(pe.env)})
     return rows
+
+
+def is_projection_set(ctx, body, tree, src_pat, comp):
+    """`tree` is the collection of component `comp` of the pairs of a source matching `src_pat`: `src.iter().map(|p| p.comp).collect()`
+    or `src.iter().copied().unzip().comp`"""
+    from analysis.seq import seq_of, seq_of_iter, ITEM
+    from analysis.sym import peel as _peel
+    from analysis.pat import match as _match
+    c = _peel(tree)
+    if c[0] == 'field' and c[2] == comp and _peel(c[1])[0] == 'call' and _peel(c[1])[1].endswith('unzip'):
+        segs = seq_of_iter(ctx.facts, body, _peel(c[1])[2][0])
+        return segs is not None and len(segs) == 1 and segs[0].kind == 'each' and not segs[0].conds and _match(_core(segs[0].src), src_pat) and _core(segs[0].elem) == ITEM
+    segs = seq_of(ctx.facts, body, tree)
+    return segs is not None and len(segs) == 1 and segs[0].kind == 'each' and not segs[0].conds and _match(_core(segs[0].src), src_pat) and \
+        _core(segs[0].elem) == ('field', ITEM, comp)
